@@ -589,6 +589,7 @@ func (s *sched) runOnce(r *Run, body func(*Run), prefix []int) execResult {
 	s.abortMsg = ""
 	s.diverged = ""
 	s.randHook = nil
+	s.mapOrderOn = false
 	s.objH = map[uintptr]uint64{}
 	s.objX = 0
 	s.costUsed = 0
